@@ -1,0 +1,49 @@
+//go:build verif
+
+package gtab
+
+import (
+	"bytes"
+
+	"golang.org/x/text/language"
+	"seehuhn.de/go/sfnt/parser"
+)
+
+// Hooks for part C14B of the C14 verification harness (add-only).
+
+// VerifC14BOtfToBCP47 exposes otfToBCP47.
+func VerifC14BOtfToBCP47(script, lang string) (language.Tag, error) {
+	return otfToBCP47(otfScript(script), otfLang(lang))
+}
+
+// VerifC14BBCP47ToOtf exposes bcp47ToOtf.
+func VerifC14BBCP47ToOtf(tag language.Tag) (string, string, error) {
+	s, l, err := bcp47ToOtf(tag)
+	return string(s), string(l), err
+}
+
+// VerifC14BScriptTable returns a copy of scriptBcp47.
+func VerifC14BScriptTable() map[string]string {
+	res := make(map[string]string, len(scriptBcp47))
+	for k, v := range scriptBcp47 {
+		res[string(k)] = v
+	}
+	return res
+}
+
+// VerifC14BLangTable returns a copy of langBcp47.
+func VerifC14BLangTable() map[string]string {
+	res := make(map[string]string, len(langBcp47))
+	for k, v := range langBcp47 {
+		res[string(k)] = v
+	}
+	return res
+}
+
+// VerifC14BEncodeScriptList exposes ScriptListInfo.encode.
+func VerifC14BEncodeScriptList(info ScriptListInfo) []byte { return info.encode() }
+
+// VerifC14BReadScriptList exposes readScriptList on a byte slice.
+func VerifC14BReadScriptList(data []byte) (ScriptListInfo, error) {
+	return readScriptList(parser.New(bytes.NewReader(data)), 0)
+}
